@@ -64,7 +64,7 @@ def make_spec(stream, rng, edge_index=None):
                 t += rng.randint(0, max(1, o["duration"] - 1)) if stream == "overlap" else rng.randint(0, o["duration"])
                 if rng.random() < 0.5:
                     o["workflow"] = simgen.gen_workflow(rng, 7, [m["flops"] for m in spec["machines"]],
-                                                        shape=rng.choice(["fan", "diamond", "random"]))
+                                                        shape=rng.choice(["fan", "diamond", "random", "chains2", "chains2"]))
                 o["demand"] = 1
             spec["total_arrays"] = max(spec["total_arrays"], len(spec["observations"]))
             tot = sum(o["rate"] * o["duration"] for o in spec["observations"])
@@ -388,6 +388,8 @@ def make_spec(stream, rng, edge_index=None):
         opt["only_props"] = ["C19"]
     elif stream == "delays":
         spec = simgen.gen_spec(rng)
+        if spec["planning"] == "static" and rng.random() < 0.6:
+            spec["static_slack"] = rng.choice([2, 5, 20])     # plans with room: a delayed task may still be "on plan"
         if rng.random() < 0.6:
             spec["delay"] = {"script_seed": rng.randint(0, 10 ** 6), "p": 0.6, "max": 5}
         else:
